@@ -151,6 +151,8 @@ fn plans(ctx: &Ctx) -> Vec<Plan> {
 		v.push(Plan::new(2, 0, 1, Level::Small, true, 2));
 		v.push(Plan::new(3, 1, 2, Level::Small, false, 1));
 		v.push(Plan::new(3, 2, 1, Level::Small, false, 3));
+		v.push(Plan::new(3, 0, 2, Level::Small, false, 3));
+		v.push(Plan::new(3, 2, 0, Level::Small, false, 1));
 	} else {
 		for primary in [1, 3] {
 			v.push(Plan::new(2, 0, 1, Level::Full, false, primary));
